@@ -91,18 +91,96 @@ META = {
         "components": comp(),
         "assumptions": ["a Compute whose callback panics may or may not be counted as a lookup"],
     },
+    "C02": {
+        "technique": "deterministic simulation: seeded schedules (random-walk / PCT / bursts / windows) over instrumented otter; recorded histories checked per key with porcupine against a sequential map with split loads and eviction events",
+        "level_text": "2-4 simulated client goroutines issue Set/SetIfAbsent/GetIfPresent/GetEntry/Compute*/Invalidate/loader-backed Get on 1-6 keys while the real table grows, evicts and maintenance runs (default go executor, caller-runs, queued executor task); every context switch is decided by the seeded scheduler at sync/atomic granularity. Per-key histories stamped with the global event sequence are checked by porcupine; compute callbacks must run exactly once and see the value they replace.",
+        "level_note": CONC_NOTE,
+        "rule": "one case = (configuration without reachable expiry, prefill, per-task programs) x one schedule. Non-trivial: at least two operations of different tasks on the same key overlapped in time and one of them writes. Distinct: hash of (case, context-switch sequence).",
+        "components": comp(),
+        "assumptions": ["a loading Get is modelled as two steps (miss observed; result installed or discarded) as in DESIGN.md; a write landing between the miss and the start of the load is therefore not protected (documented observation)",
+                        "an automatic removal takes effect at some instant inside the table computation that invokes OnAtomicDeletion (between the handler call and the release of the bucket lock)",
+                        "porcupine timeouts (2 s per key) are counted as unknown, never reported"],
+    },
+    "C04": {
+        "technique": "deterministic simulation: concurrent writers/readers/SetMaximum under seeded schedules and three executor kinds; bound checked at quiescence after the fair drain phase and CleanUp",
+        "level_text": "2-4 client tasks x 6-30 operations with weights {0, small, = maximum, > maximum}, weight-changing updates and SetMaximum from client tasks; after all calls returned, a fair drain phase and CleanUp (<= 3 times), the weights of the entries present must not exceed GetMaximum, no entry heavier than the maximum may be retained and no Overflow event may name a zero-weight entry.",
+        "level_note": CONC_NOTE,
+        "rule": "one case = (bounded configuration, prefill, per-task programs) x one schedule. Non-trivial: the cache is size- or weight-bounded and the run had more than 4 context switches. Distinct: hash of (case, context-switch sequence).",
+        "components": comp(),
+        "assumptions": [],
+    },
+    "C05": {
+        "technique": "deterministic simulation: concurrent histories under seeded schedules; at quiescence derived views (WeightedSize, EstimatedSize, Hottest/Coldest) and an in-package structural audit (deques, per-queue weights, timer wheel, table) must agree",
+        "level_text": "Same runs as C04 plus expiry-enabled configurations. At quiescence after CleanUp: WeightedSize = sum of weights of All(), EstimatedSize = |All()|, set(Hottest) = set(Coldest) = set(All); the audit (overlay, //go:build verif) walks the three deques, the timer wheel and the table: every table node linked in exactly one deque matching its queue tag, no dead/retired node linked, per-queue weight sums = policy counters.",
+        "level_note": CONC_NOTE,
+        "rule": "one case = (configuration, prefill, per-task programs) x one schedule. Non-trivial: more than 4 context switches. Distinct: hash of (case, context-switch sequence).",
+        "components": comp(),
+        "assumptions": ["EstimatedSize = |All()| is demanded only without expiry (expired-but-unswept entries are counted but not iterated)"],
+    },
+    "C06": {
+        "technique": "deterministic simulation: unique value per write; at quiescence values written = present + reported, exactly-once per handler, cause vs emitting context, per-key removal order",
+        "level_text": "Concurrent writers/invalidators/InvalidateAll/loads with sync, queued and default executors. Every written value is unique, so at quiescence (after CleanUp and executor drain) each explicitly written value must be either present or reported exactly once to OnAtomicDeletion, OnDeletion must mirror OnAtomicDeletion, the cause must be compatible with the operation in whose context the handler fired, and a value may not be reported removed before the value it replaced.",
+        "level_note": CONC_NOTE,
+        "rule": "one case = (configuration, prefill, per-task programs) x one schedule. Non-trivial: more than 4 context switches and at least one atomic deletion event. Distinct: hash of (case, context-switch sequence).",
+        "components": comp(),
+        "assumptions": ["values produced by loaders may legitimately be discarded, so only 'not both present and reported' is demanded of them"],
+    },
+    "C08": {
+        "technique": "deterministic simulation with loader fault injection (error, not-found, panic, stall until quiescence, partial/extra bulk results) under seeded schedules; overlap rule on loader invocations, deadlock detection and bounded fair drain for termination",
+        "level_text": "2-5 tasks issue Get/BulkGet/Refresh/BulkRefresh over 1-4 keys with injected loader outcomes; loaders contain scheduling points and may stall until the rest of the system is idle. Two loader invocations for one key may overlap only if a write/invalidation/eviction of the key can lie between the registration of either load and the second loader entry; every call must return (simulated deadlock detection + step budget in the fair drain phase); no in-flight record may remain and a later Get of an absent key must invoke the loader again.",
+        "level_note": CONC_NOTE,
+        "rule": "one case = (configuration, per-task programs with loader plans) x one schedule. Non-trivial: some Get waited for another call's load or two loader invocations of a key overlapped. Distinct: hash of (case, context-switch sequence).",
+        "components": comp(),
+        "assumptions": ["a loader panic inside an executor task ends that task (a stub for 'the process dies'); waiters are still checked"],
+    },
+    "C09": {
+        "technique": "deterministic simulation: loads/refreshes with scheduling points inside the loader racing explicit writes/invalidations on 1-2 keys; stale-load rule over the history plus porcupine with split loads",
+        "level_text": "2-3 tasks on one or two keys: Get/Refresh with loaders that yield, against Set/SetIfAbsent/Compute*/Invalidate. For every load whose loader was entered before an explicit write/invalidation W was invoked, neither a read invoked after W returned nor the final contents may show the loaded value; plus per-key linearizability with the load split into miss/installation steps.",
+        "level_note": CONC_NOTE,
+        "rule": "one case = (configuration, per-task programs) x one schedule. Non-trivial: an explicit write or invalidation of the key was invoked inside a load window (counted per window position before/after the loader returned). Distinct: hash of (case, context-switch sequence).",
+        "components": comp(),
+        "assumptions": ["'start of the load' is the entry into the loader, as in DESIGN.md section C09"],
+    },
+    "C14": {
+        "technique": "deterministic simulation of the drain-status protocol: default executor (otter's own go statements become simulated tasks), tiny write buffers, no CleanUp and no further calls; audit at simulated quiescence",
+        "level_text": "2-5 tasks x 5-30 operations (writers, readers, SetMaximum/GetMaximum/WeightedSize, Hottest/Coldest/InvalidateAll) with write-buffer maxima 4-1024 under seeded schedules; once every call has returned and every goroutine the cache started has finished (fair drain phase), without any further call: drainStatus must be idle, the write buffer empty, the raw table within the bound, every atomic event notified, and no task may be stuck.",
+        "level_note": CONC_NOTE,
+        "rule": "one case = (bounded or expiring configuration with the default executor, per-task programs) x one schedule. Non-trivial: maintenance is configured and the run had more than 4 context switches. Distinct: hash of (case, context-switch sequence).",
+        "components": comp(),
+        "assumptions": [],
+    },
+    "C15": {
+        "technique": "deterministic simulation of internal/hashmap directly: concurrent Get/Compute/Range/Size/Clear around grow and shrink thresholds, colliding hash seeds, parallel copy; porcupine per key + lost-key, once-only, size and range rules",
+        "level_text": "2-6 simulated tasks x 10-60 operations on the real table, pre-filled to just below a grow threshold (32->64, 64->128, 128->256 with the parallel copier) or deleted down to the shrink threshold, with hash seeds from the run's stream incl. a mode that squeezes all keys into two bucket chains. Oracles: per-key linearizability (Range counts as a read of every hot key over its interval), compute function exactly once, keys inserted and never removed always found, Size = number of keys at quiescence, Range yields no key twice and nothing removed before it began.",
+        "level_note": CONC_NOTE,
+        "rule": "one case = (table parameters, prefill, per-task programs) x one schedule. Non-trivial: operations of different tasks on a hot key overlapped and the table was resized during the run (or started empty). Distinct: hash of (case, context-switch sequence).",
+        "components": {"real": "internal/hashmap (instrumented), xruntime hasher", "stubbed": "node type and node manager are harness-defined (the table is generic over them); sync/atomic/go/maphash shims"},
+        "assumptions": [],
+    },
+    "C16": {
+        "technique": "deterministic simulation of internal/deque/queue.MPSC directly: 1-5 producers and the single consumer under seeded schedules across all growth steps; exactly-once, producer order, refusal-implies-full",
+        "level_text": "Producers push unique (producer, sequence) elements, the consumer pops concurrently, (initial, max) capacity pairs from (2,4) to (16,128). Popped multiset = accepted multiset after the final drain, per-producer order preserved, a refused offer is flagged if an upper bound of the occupancy over its whole interval stays below the maximum, consumer panics are violations.",
+        "level_note": CONC_NOTE,
+        "rule": "one case = (capacities, producer programs, consumer program) x one schedule. Non-trivial: at least one element accepted and more than 2 context switches. Distinct: hash of (case, context-switch sequence).",
+        "components": {"real": "internal/deque/queue.MPSC (instrumented)", "stubbed": "sync/atomic shims only"},
+        "assumptions": [],
+    },
+    "C17": {
+        "technique": "deterministic simulation of internal/lossy.Striped directly: 2-8 recorders vs the single draining consumer, stripe creation and table expansion under contention, pool behaviour from the run's stream",
+        "level_text": "Producers Add fresh distinguishable nodes while the consumer drains; delivered entries must be a subset of the successfully recorded ones, each at most once, Len() never above stripes x 16, and after the producers finished one final drain must deliver exactly the undelivered successes.",
+        "level_note": CONC_NOTE,
+        "rule": "one case = (maximum stripes, producer programs, consumer program) x one schedule. Non-trivial: at least one successful Add and more than 2 context switches. Distinct: hash of (case, context-switch sequence).",
+        "components": {"real": "internal/lossy ring + striped (instrumented), generated node type B", "stubbed": "sync/atomic/sync.Pool/rand shims"},
+        "assumptions": ["'dropping reads never changes what an operation returns' is covered by C01/C02 runs with 1-2 stripes, whose model has no notion of a read buffer"],
+    },
+    "C18": {
+        "technique": "simulation-controlled hash seeds (random and adversarially colliding) and random source for the real sketch and policy.admit; per-period count bounds, aging and admission rules checked after every recording",
+        "level_text": "Weakest fit for this technique family (single task, no schedule): what the simulator contributes is ownership of the two nondeterminism seams the property quantifies over - hash seeds (maphash shim, incl. a colliding mode) and the admission random source. Recording programs with ensureCapacity calls (non powers of two, resizes) are run against the real sketch: estimate >= min(recordings in the period, 15), <= 15, zero before enablement, halving on aging; real policy.admit with an injected rand: candidate > victim admits, candidate <= victim and < 6 never admits for any rand value, the jitter branch fires for at most 1/16 of uniform values.",
+        "level_note": "Trusted: the overlay accessors (//go:build verif) expose the unexported sketch and admit unchanged. This is seeded input/seed generation rather than interleaving exploration; stated plainly.",
+        "rule": "one case = (hash mode, recording program). Non-trivial: more than 10 recordings after enablement. Distinct: hash of the case.",
+        "components": {"real": "sketch.go, policy.admit (instrumented), xruntime hasher", "stubbed": "maphash seeds and the policy's rand come from the run's streams"},
+        "assumptions": [],
+    },
 }
 
-NOT_APPLICABLE = {
-    "C02": "check under construction in this round (concurrent engine); not claimed until it passes on the unchanged tree",
-    "C04": "check under construction in this round (concurrent engine); not claimed until it passes on the unchanged tree",
-    "C05": "check under construction in this round (concurrent engine); not claimed until it passes on the unchanged tree",
-    "C06": "check under construction in this round (concurrent engine); not claimed until it passes on the unchanged tree",
-    "C08": "check under construction in this round (concurrent engine); not claimed until it passes on the unchanged tree",
-    "C09": "check under construction in this round (concurrent engine); not claimed until it passes on the unchanged tree",
-    "C14": "check under construction in this round (concurrent engine); not claimed until it passes on the unchanged tree",
-    "C15": "check under construction in this round (component engine); not claimed until it passes on the unchanged tree",
-    "C16": "check under construction in this round (component engine); not claimed until it passes on the unchanged tree",
-    "C17": "check under construction in this round (component engine); not claimed until it passes on the unchanged tree",
-    "C18": "check under construction in this round (component engine); not claimed until it passes on the unchanged tree",
-}
+NOT_APPLICABLE = {}
